@@ -648,10 +648,13 @@ func (fsm *storeFSM) Restore(r io.ReadCloser) error {
 		return err
 	}
 
-	// Set metadata on store.
-	// NOTE: No lock because Hashicorp Raft doesn't call Restore concurrently
-	// with any other function.
+	// Set metadata on store. Raft does not call Restore concurrently with
+	// Apply or Snapshot, but the HTTP handlers read the store's data under
+	// its read lock at any time.
+	s := (*store)(fsm)
+	s.mu.Lock()
 	fsm.data = data
+	s.mu.Unlock()
 
 	return nil
 }
